@@ -176,6 +176,22 @@ func recC15(c *ctx) {
 		alBuf := append(append([]byte(nil), alpha...), bytes.Repeat([]byte{0xa7}, 32)...)
 		sk = ed25519.PrivateKey(skBuf[:64])
 		alpha = alBuf[:len(alpha)]
+		// an entropy source that breaks in the middle of a read: the call must fail, and nothing it absorbed may leak into
+		// the proof made next (which is recomputed from the seed by the specification)
+		{
+			var perr error
+			var ppi []byte
+			c.try("vrfprovefail", vt.Ev{}, func() {
+				if v10 {
+					ppi, perr = ecvrf.ProveWithAddedRandomness_v10(r.FailingEntropy(z, r.Intn(32)), sk, alpha)
+				} else {
+					ppi, perr = ecvrf.ProveWithAddedRandomness(r.FailingEntropy(z, r.Intn(32)), sk, alpha)
+				}
+			})
+			if perr == nil || ppi != nil {
+				c.w.Emit(vt.Ev{"op": "vrfprovefail", "cfg": c.cfg, "err": perr != nil, "pinil": ppi == nil})
+			}
+		}
 		var pi []byte
 		switch {
 		case !addRand && !v10:
@@ -241,6 +257,22 @@ func recC15(c *ctx) {
 			pb := append(append([]byte(nil), pi[:48]...), bd[j]...)
 			b, err := ecvrf.ProofToHash(pb)
 			c.w.Emit(vt.Ev{"op": "vrfp2h", "cfg": c.cfg, "pi": vt.B(pb), "p2hok": err == nil, "p2h": vt.B(b)})
+		}
+		// the same decoder on the honest s with the top bits set (s + 2^253 .. s + 2^255: at or above L, whatever a masking
+		// loader makes of it), through the decoder alone and through full verification
+		for _, hv := range vt.HighBitVariants(pi[48:80]) {
+			pb := append(append([]byte(nil), pi[:48]...), hv...)
+			b, err := ecvrf.ProofToHash(pb)
+			c.w.Emit(vt.Ev{"op": "vrfp2h", "cfg": c.cfg, "pi": vt.B(pb), "p2hok": err == nil, "p2h": vt.B(b)})
+			okv := false
+			c.try("vrfhigh", vt.Ev{}, func() {
+				if v10 {
+					okv, _ = ecvrf.Verify_v10(pk, pb, alpha)
+				} else {
+					okv, _ = ecvrf.Verify(pk, pb, alpha)
+				}
+			})
+			c.w.Emit(vt.Ev{"op": "vrfsweep", "cfg": c.cfg, "n": -1, "v10": v10, "entry": -1, "same": true, "last": okv, "trunc": false, "app": false})
 		}
 		// ---- proofs built with the secret for a torsion-shifted Gamma: only the cofactor handling decides
 		for _, ti := range []int{4, 2, 1 + r.Intn(7)} {
